@@ -342,7 +342,11 @@ func (c *CheckCtx) run() int {
 		b, _ := json.MarshalIndent(v, "", " ")
 		os.WriteFile(path, b, 0o644)
 		lines = append(lines, fmt.Sprintf("VIOLATION property=%s replay=%s", c.P.ID, path))
-		lines = append(lines, fmt.Sprintf("  %s: %s witness=%v", v.Key, v.Msg, v.Witness))
+		ws := fmt.Sprint(v.Witness)
+		if len(ws) > 400 {
+			ws = ws[:400] + "...(see replay file)"
+		}
+		lines = append(lines, fmt.Sprintf("  %s witness=%s", v.Key, ws))
 		exit = 1
 	}
 	for _, l := range lines {
